@@ -4,15 +4,18 @@
 (* (packages/tokens/src/rwa): every registry answers every query as the    *)
 (* plain set / map / relation implied by the operations applied so far.    *)
 (*                                                                         *)
-(* One model, six flavours (field `fl` of the ghost record):               *)
+(* One model, seven flavours (field `fl` of the ghost record):             *)
 (*   "keys"    claim_issuer: signing keys <-> (topic, registry) pairs      *)
 (*   "cti"     claim_topics_and_issuers: topics, issuers, topic <-> issuer *)
 (*   "binder"  utils/token_binder: bound tokens (bucketed list)            *)
 (*   "docs"    extensions/doc_manager: documents (bucketed map)            *)
 (*   "irs"     identity_registry_storage: identity, profile, recovery link *)
 (*   "modules" compliance: modules per hook                                *)
+(*   "claims"  identity_claims: claims by id = f(issuer, topic), ids by     *)
+(*             topic                                                       *)
 (*                                                                         *)
 (* An event is  [op |-> [op, a, b, c, xs, n], res |-> "ok" | "fail",       *)
+(*               ret |-> the value returned ("none" if none),              *)
 (*               obs |-> every public getter after the call]               *)
 (* (a, b, c: names or "none"; xs: sequence of names; n: a number).         *)
 (* The same operators judge every transition of MC_Registries (TLC,        *)
@@ -46,6 +49,7 @@ EmptyMap == <<>>
 \* docs    D : name -> [uri, hash, ts]
 \* irs     id : account -> identity, pr : account -> [type, cs], rec : old -> new
 \* modules M : set of <<hook, module>>
+\* claims  C : <<topic, issuer>> -> [data, scheme, uri, sig]
 \* last : the observation after the previous call ("refused without effect")
 GInit(fl, lim, obs) ==
   CASE fl = "keys"    -> [fl |-> fl, lim |-> lim, last |-> obs, S |-> {}]
@@ -54,6 +58,7 @@ GInit(fl, lim, obs) ==
     [] fl = "docs"    -> [fl |-> fl, lim |-> lim, last |-> obs, D |-> EmptyMap]
     [] fl = "irs"     -> [fl |-> fl, lim |-> lim, last |-> obs, id |-> EmptyMap, pr |-> EmptyMap, rec |-> EmptyMap]
     [] fl = "modules" -> [fl |-> fl, lim |-> lim, last |-> obs, M |-> {}]
+    [] fl = "claims"  -> [fl |-> fl, lim |-> lim, last |-> obs, C |-> EmptyMap]
     [] OTHER          -> [fl |-> "?", lim |-> lim, last |-> obs]
 
 (* how a successful call changes the plain set / map --------------------------*)
@@ -89,6 +94,13 @@ GStep(g, o) ==
          IF o.n + 1 \in DOMAIN CountriesOf(g, o.a) THEN [g EXCEPT !.pr[o.a].cs = RemAt(@, o.n + 1)] ELSE g
     [] o.op = "add_module"      -> [g EXCEPT !.M = @ \cup {<<o.a, o.b>>}]
     [] o.op = "remove_module"   -> [g EXCEPT !.M = @ \ {<<o.a, o.b>>}]
+    \* add_claim(topic a, issuer b, data c, scheme n, uri xs[1], signature xs[2]): insert or overwrite;
+    \* "add_invalid" is the same call while the issuer contract rejects the claim: never an effect
+    [] o.op = "add_claim"       ->
+         IF Len(o.xs) = 2
+         THEN [g EXCEPT !.C = Put(@, <<o.a, o.b>>, [data |-> o.c, scheme |-> o.n, uri |-> o.xs[1], sig |-> o.xs[2]])]
+         ELSE g
+    [] o.op = "remove_claim"    -> [g EXCEPT !.C = Del(@, <<o.a, o.b>>)]
     [] OTHER                    -> g
 
 \* the ops of each flavour (an op of another flavour is ignored)
@@ -100,6 +112,7 @@ OpsOf(fl) ==
     [] fl = "irs"     -> {"add_identity", "modify_identity", "remove_identity", "recover", "add_countries",
                           "modify_country", "delete_country"}
     [] fl = "modules" -> {"add_module", "remove_module"}
+    [] fl = "claims"  -> {"add_claim", "add_invalid", "remove_claim"}
     [] OTHER          -> {}
 
 \* the plain set / map after the call (observation not yet recorded)
@@ -229,6 +242,33 @@ QueryModules(G, obs) ==
 
 EnumModules(G, obs) == \A h \in DOMAIN obs.mods : NoDup(obs.mods[h])
 
+(* claims: identity claims by id, claim ids by topic -----------------------------------------*)
+\* the name under which the harness logs the id of (issuer, topic): it names a 32-byte id after the
+\* first pair of the universe that `generate_claim_id` maps to it (any other id is logged in hex)
+Cid(t, i) == t \o "/" \o i
+LiveOf(G, t) == {k \in DOMAIN G.C : k[1] = t}
+
+\* probes: claim <<[t, i, id, ok, topic, issuer, data, scheme, uri, sig]>>  id = generate_claim_id(i, t),
+\*         the rest = get_claim(id);  byt[t] = get_claim_ids_by_topic(t)
+QueryClaims(G, obs) ==
+  /\ \A p \in ToSet(obs.claim) :
+       IF <<p.t, p.i>> \in DOMAIN G.C
+       THEN LET c == G.C[<<p.t, p.i>>] IN
+            /\ p.ok /\ p.topic = p.t /\ p.issuer = p.i
+            /\ p.data = c.data /\ p.scheme = c.scheme /\ p.uri = c.uri /\ p.sig = c.sig
+       ELSE ~p.ok
+  /\ \A t \in DOMAIN obs.byt : ToSet(obs.byt[t]) = {Cid(k[1], k[2]) : k \in LiveOf(G, t)}
+
+\* every live claim is listed once under its topic
+EnumClaims(G, obs) ==
+  \A t \in DOMAIN obs.byt : NoDup(obs.byt[t]) /\ Len(obs.byt[t]) = Cardinality(LiveOf(G, t))
+
+\* the claim id is a function of (issuer, topic) alone, injective over the universe and the same at
+\* every step; add_claim returns it, for a new claim and for an overwrite alike
+IdsClaims(g, ev) ==
+  /\ \A p \in ToSet(ev.obs.claim) : p.id = Cid(p.t, p.i)
+  /\ (ev.op.op = "add_claim" /\ ev.res = "ok") => ev.ret = Cid(ev.op.a, ev.op.b)
+
 QueryOk(G, obs) ==
   CASE G.fl = "keys"    -> QueryKeys(G, obs)
     [] G.fl = "cti"     -> QueryCti(G, obs)
@@ -236,6 +276,7 @@ QueryOk(G, obs) ==
     [] G.fl = "docs"    -> QueryDocs(G, obs)
     [] G.fl = "irs"     -> QueryIrs(G, obs)
     [] G.fl = "modules" -> QueryModules(G, obs)
+    [] G.fl = "claims"  -> QueryClaims(G, obs)
     [] OTHER            -> TRUE
 
 EnumOk(G, obs) ==
@@ -245,6 +286,7 @@ EnumOk(G, obs) ==
     [] G.fl = "docs"    -> EnumDocs(G, obs)
     [] G.fl = "irs"     -> EnumIrs(G, obs)
     [] G.fl = "modules" -> EnumModules(G, obs)
+    [] G.fl = "claims"  -> EnumClaims(G, obs)
     [] OTHER            -> TRUE
 
 (* refusals and capacity limits ---------------------------------------------------------------*)
@@ -269,6 +311,8 @@ Redundant(g, o) ==
     [] o.op \in {"modify_country", "delete_country"} -> o.n >= Len(CountriesOf(g, o.a))
     [] o.op = "add_module"      -> <<o.a, o.b>> \in g.M
     [] o.op = "remove_module"   -> <<o.a, o.b>> \notin g.M
+    [] o.op = "remove_claim"    -> <<o.a, o.b>> \notin DOMAIN g.C
+    [] o.op = "add_invalid"     -> TRUE
     [] OTHER                    -> FALSE
 
 \* a new element one past a documented limit: must be refused
@@ -341,13 +385,16 @@ AtSet(g, o) ==
 LimitNames == {"rpk", "kpt", "topics", "issuers", "tokens", "batch", "docs", "countries", "modules"}
 
 (* monitors -----------------------------------------------------------------------------------*)
-Flavours == {"keys", "cti", "binder", "docs", "irs", "modules"}
+Flavours == {"keys", "cti", "binder", "docs", "irs", "modules", "claims"}
 Kinds == {"query", "refuse", "capacity", "enum"}
 MonName(fl, k) == "C20_" \o fl \o "_" \o k
 
-Monitors == {MonName(fl, k) : fl \in Flavours, k \in Kinds} \cup {"C20_irs_recovery"}
+\* (the claims registry has no capacity limit; its extra monitor is "C20_claims_ids")
+KindsOf(fl) == IF fl = "irs" THEN Kinds \cup {"recovery"}
+               ELSE IF fl = "claims" THEN {"query", "refuse", "enum", "ids"}
+               ELSE Kinds
 
-KindsOf(fl) == IF fl = "irs" THEN Kinds \cup {"recovery"} ELSE Kinds
+Monitors == UNION {{MonName(fl, k) : k \in KindsOf(fl)} : fl \in Flavours}
 
 PropOf(m) == "C20"
 
@@ -363,6 +410,7 @@ AnteK(k, g, ev) ==
        [] k = "refuse"   -> Redundant(g, o) \/ ev.res # "ok"
        [] k = "capacity" -> OverCap(g, o) \/ Within(g, o)
        [] k = "recovery" -> DOMAIN g.rec # {} \/ o.op = "recover"
+       [] k = "ids"      -> TRUE
 
 ConsK(k, g, ev) ==
   LET o == ev.op  ok == ev.res = "ok"  G == GAfter(g, ev) IN
@@ -380,6 +428,8 @@ ConsK(k, g, ev) ==
                          /\ (o.op = "recover" /\ o.b \in DOMAIN g.rec) => ~ok
                          /\ \A a \in DOMAIN G.rec : a \notin DOMAIN G.id
                          /\ \A a \in DOMAIN g.rec : a \in DOMAIN G.rec /\ G.rec[a] = g.rec[a]
+  \* claim ids: a fixed injective function of (issuer, topic), returned by add_claim
+    [] k = "ids"      -> IdsClaims(g, ev)
 
 \* by monitor name (only the monitors of the run's flavour are ever non-trivial)
 Ante(m, g, ev) == \E k \in KindsOf(g.fl) : m = MonName(g.fl, k) /\ AnteK(k, g, ev)
